@@ -188,6 +188,14 @@ def receiver(outdir, form=None):
 def run(run):
     from vf.rt import corpus as C
 
+    # tier P: what __reduce__ ships (class + ALL operands; the expression; the data without the per-process cache),
+    # and the guard that every pickling hook of the package is under contract
+    from vf.contracts.registry import run_property_specs
+    from vf.contracts.serialize import coverage_guard
+
+    run_property_specs(run, "C16")
+    coverage_guard(run)
+
     names = [n for n in C.PROGRAMS if "disk" not in C.PROGRAMS[n].tags and (C.PROGRAMS[n].only is None or "C16" in C.PROGRAMS[n].only)]
     if run.tier == "quick":
         names = names[::2] + [n for n in names if n.startswith(("set_index", "sort_", "repartition", "merge_", "shuffle"))]
